@@ -153,7 +153,8 @@ func (cache *TxCache) evictLeastLikelyToSelectTransactions() *evictionJournal {
 
 		// Remove those transactions from "txListBySender".
 		for sender, nonce := range lowestToEvictBySender {
-			cache.txListBySender.removeTransactionsWithHigherOrEqualNonce([]byte(sender), nonce)
+			removedHashes := cache.txListBySender.removeTransactionsWithHigherOrEqualNonce([]byte(sender), nonce)
+			_ = cache.txByHash.RemoveTxsBulk(removedHashes)
 		}
 
 		// Remove those transactions from "txByHash".
